@@ -1,1 +1,4 @@
+import Neutrino.Props.C01
+import Neutrino.Props.C02
 import Neutrino.Props.C16
+import Neutrino.Props.C19
